@@ -94,7 +94,7 @@ def build(reg):
         params={"var_list": TSeq(TRef("Obj")), "rename_list": TSeq(TOpt(STR)), "var_prefix": STR},
         ref_fields=rf, locals_={"tmp_list": TSeq(TRef("Obj")), "tmp_rename": TSeq(TOpt(STR)), "var_name": TOpt(STR)},
         result=TTup([TSeq(TRef("Obj")), TSeq(TOpt(STR))]),
-        ghost={"slice_from": "if var_prefix == ''"},
+        ghost={"slice_from": ("if var_prefix == ''", "if var_prefix != ''")},
         requires=[("aligned", "len(var_list) == len(rename_list)")],
         ensures=[("no_prefix_everything", "implies(var_prefix == '', result[0] == var_list and result[1] == rename_list)"),
                  ("prefix_exact", "implies(var_prefix != '', result[0] == keepfold(var_list, rename_list, var_prefix, len(var_list), 0))"),
